@@ -86,3 +86,4 @@ pub mod c09;
 pub mod c28;
 pub mod c14;
 pub mod sync;
+pub mod c03;
